@@ -157,3 +157,46 @@ def canon_list_text(s, text=norm):
     except SyntaxError:
         return None
     return canon_list(e, text)
+
+
+def hash_stream(L, text, ctors=("sha256", "hashlib.sha256")):
+    """Canonical `<ctor>() | <bytes fed>` of a hash-object expression (PROV writes h.update(x) as h + x):
+    sha256(X), sha256() followed by update(X) and sha256() updated in a loop over the pieces of X are one stream.
+    L: a sa.layout.Layout."""
+    e = ast.parse(text, mode="eval").body if isinstance(text, str) else text
+    if isinstance(e, ast.Call) and norm(e.func) in ctors and len(e.args) == 1 and not e.keywords:
+        return f"{norm(e.func)}() | {L.canon(e.args[0])}"
+    return L.canon(e)
+
+
+class _DictIter(ast.NodeTransformer):
+    """ELEM(D.keys()) / ELEM(D) / ELEM0(D.items()) -> KEY(D) ;  ELEM1(D.items()) / D[KEY(D)] / ELEM(D.values()) -> VAL(D)
+    (only for iteration markers, i.e. ELEM* calls produced by PROV)."""
+
+    def visit_Call(self, node):
+        self.generic_visit(node)
+        if isinstance(node.func, ast.Name) and node.func.id in ("ELEM", "ELEM0", "ELEM1") and len(node.args) == 1:
+            a = node.args[0]
+            if isinstance(a, ast.Call) and isinstance(a.func, ast.Attribute) and not a.args:
+                d = a.func.value
+                kind = a.func.attr
+                if (kind == "keys" and node.func.id == "ELEM") or (kind == "items" and node.func.id == "ELEM0"):
+                    return ast.Call(func=ast.Name(id="KEY", ctx=ast.Load()), args=[d], keywords=[])
+                if (kind == "values" and node.func.id == "ELEM") or (kind == "items" and node.func.id == "ELEM1"):
+                    return ast.Call(func=ast.Name(id="VAL", ctx=ast.Load()), args=[d], keywords=[])
+        return node
+
+    def visit_Subscript(self, node):
+        self.generic_visit(node)
+        s = node.slice
+        if isinstance(s, ast.Call) and isinstance(s.func, ast.Name) and s.func.id == "KEY" and len(s.args) == 1 \
+                and norm(s.args[0]) == norm(node.value):
+            return ast.Call(func=ast.Name(id="VAL", ctx=ast.Load()), args=[node.value], keywords=[])
+        return node
+
+
+def canon_dict_iter(text):
+    try:
+        return ast.unparse(_DictIter().visit(ast.parse(text, mode="eval").body))
+    except SyntaxError:
+        return text
